@@ -391,6 +391,7 @@ def compute_spca(
     max_iter=1e3,
     tol=1e-5,
     compute=False,
+    n_samples=None,
 ):
     r"""Sparse Principal Component Analysis (SPCA).
 
@@ -558,7 +559,8 @@ def compute_spca(
         # Next iter
         n_iter += 1
 
-    eigen_values = Dtilde / (m - 1)
+    # X may be a compressed sketch with fewer rows than the data has samples
+    eigen_values = Dtilde / ((m if n_samples is None else n_samples) - 1)
 
     return B, A, eigen_values
 
@@ -687,8 +689,7 @@ def compute_rspca(
         tol=tol,
         robust=robust,
         compute=compute,
+        n_samples=m,
     )
-    # rescale eigen values
-    eigen_values *= (n_components + oversample - 1) / (m - 1)
 
     return B, A, eigen_values
